@@ -252,11 +252,26 @@ func runC17(c *fw.Case) (o fw.Outcome) {
 		}
 	case 5:
 		o.Tag("dnn")
-		for i := 0; i < 100; i++ {
+		for i := 0; i < 300; i++ {
 			l := pick(r, 1, 8, 63, 100, 1+r.Intn(100))
+			if i < 256 {
+				l = (i + blk) % 256 // every length a one-octet length field can announce, over the blocks
+			}
 			name := make([]byte, l)
+			alphabet := pick(r, "abcdefghijklmnopqrstuvwxyz0123456789-", "abcdefghijklmnopqrstuvwxyz0123456789-.", "ABCDEFGHIJKLMNOPQRSTUVWXYZ0123456789-.", "0123456789", "..", "internet", "\x00\x01\x08\x3f\x40\xff.")
 			for k := range name {
-				name[k] = "abcdefghijklmnopqrstuvwxyz0123456789-"[r.Intn(37)]
+				name[k] = alphabet[r.Intn(len(alphabet))]
+			}
+			switch r.Intn(6) {
+			case 0: // operator-identifier form of TS 23.003 9.1
+				suffix := fmt.Sprintf(".mnc%s.mcc%s.gprs", digits(r, 3), digits(r, 3))
+				if l > len(suffix) {
+					copy(name[l-len(suffix):], suffix)
+				}
+			case 1: // a name whose first octets look like label lengths
+				if l > 2 {
+					name[0], name[1] = byte(l-1), byte(r.Intn(64))
+				}
 			}
 			d := util_3gpp.Dnn(name)
 			o.Input = fmt.Sprintf("Dnn %q", name)
